@@ -42,6 +42,10 @@ pub struct CCase {
     /// false: only the ad hoc apis (`send_command`, `SendCommand`) are used, so no commander
     /// registration messages exist; true: all four apis.
     pub commander: bool,
+    /// Target slots for which `on_start` creates and keeps a commander (in this order); the flag
+    /// says whether it also sends a first (not overwritable) command through it. Commander variant only.
+    #[serde(default)]
+    pub start_cmdrs: Vec<(u8, bool)>,
 }
 
 fn arb_params() -> impl Strategy<Value = SimParams> {
@@ -66,16 +70,18 @@ fn arb_params() -> impl Strategy<Value = SimParams> {
 }
 
 fn arb_burst() -> impl Strategy<Value = COp> {
-    // bias of the api mix: 0 all queued, 1 all overwritable, 2 mixed, 3 mostly queued
+    // bias of the api mix (even api index = overwritable, odd = not; 4,5 = kept commander):
+    // 0 all queued, 1 all overwritable, 2 mixed, 3 mostly queued, 4 mostly kept commanders
     let len = prop_oneof![3 => 1usize..6, 4 => 6usize..40, 2 => 40usize..150, 1 => 150usize..=400];
-    (0u8..4, len)
+    (0u8..5, len)
         .prop_flat_map(|(bias, len)| {
             let api = match bias {
-                0 => prop_oneof![Just(1u8), Just(3u8)].boxed(),
-                1 => prop_oneof![Just(0u8), Just(2u8)].boxed(),
-                2 => (0u8..4).boxed(),
-                _ => prop_oneof![4 => Just(1u8), 4 => Just(3u8), 1 => Just(0u8), 1 => Just(2u8)]
+                0 => prop_oneof![Just(1u8), Just(3u8), Just(5u8)].boxed(),
+                1 => prop_oneof![Just(0u8), Just(2u8), Just(4u8)].boxed(),
+                2 => (0u8..6).boxed(),
+                3 => prop_oneof![4 => Just(1u8), 4 => Just(3u8), 3 => Just(5u8), 1 => Just(0u8), 1 => Just(2u8), 1 => Just(4u8)]
                     .boxed(),
+                _ => prop_oneof![3 => Just(5u8), 2 => Just(4u8), 1 => Just(1u8), 1 => Just(2u8)].boxed(),
             };
             proptest::collection::vec((0u8..3, api), len..=len)
         })
@@ -103,13 +109,15 @@ pub fn arb_case(max_ops: usize, commander: bool) -> impl Strategy<Value = CCase>
         proptest::sample::subsequence((0u8..TARGETS.len() as u8).collect::<Vec<_>>(), 1..=3),
         proptest::collection::vec(arb_cop(), 2..max_ops),
         arb_small_cap(),
+        proptest::collection::vec((0u8..3, any::<bool>()), 0..=3),
     )
-        .prop_map(move |(params, targets, ops, final_cap)| CCase {
+        .prop_map(move |(params, targets, ops, final_cap, start_cmdrs)| CCase {
             params,
             targets,
             ops,
             final_cap,
             commander,
+            start_cmdrs: if commander { start_cmdrs } else { vec![] },
         })
 }
 
@@ -196,7 +204,16 @@ fn programs_of(case: &CCase) -> Vec<Vec<CAct>> {
 fn execute(case: &CCase) -> Obs {
     block_on_paused(case.params.seed, async {
         let clock = Arc::new(AtomicU64::new(1));
-        let shared = CShared::new(clock.clone(), programs_of(case));
+        let start_cmdrs = case
+            .start_cmdrs
+            .iter()
+            .enumerate()
+            .map(|(i, (slot, first))| {
+                let t = case.targets[(*slot as usize) % case.targets.len()] as usize % TARGETS.len();
+                (t, if *first { Some(500 + i as i64) } else { None })
+            })
+            .collect();
+        let shared = CShared::new(clock.clone(), programs_of(case), start_cmdrs);
         let agent = make_cmd_agent(shared.clone());
         let mut sim = Sim::start(&agent, &case.params, clock.clone(), None);
         sim.run_until_idle();
@@ -517,6 +534,33 @@ pub fn check(case: &CCase) -> Verdict {
     v.class_if(sent.len() >= 3, "targets>=3");
     v.class_if(nsent >= 100, "sent>=100");
     v.class_if(nsent == 0, "nothing-sent");
+    {
+        // kept commanders created in both phases: one made in on_start is used again after a run-time
+        // handler has created (and kept) one for another target
+        let start_targets: Vec<usize> = case
+            .start_cmdrs
+            .iter()
+            .map(|(slot, _)| case.targets[(*slot as usize) % case.targets.len()] as usize % TARGETS.len())
+            .collect();
+        let programs = programs_of(case);
+        let mut created_later = false;
+        let mut both = false;
+        for (_, ev) in &obs.trace {
+            if let CEv::ProgBegin { idx } = ev {
+                for a in programs.get(*idx as usize).map(|p| p.as_slice()).unwrap_or(&[]) {
+                    if matches!(a.api, Api::Held | Api::HeldQueued) {
+                        if start_targets.contains(&a.t) {
+                            both |= created_later;
+                        } else {
+                            created_later = true;
+                        }
+                    }
+                }
+            }
+        }
+        v.class_if(!start_targets.is_empty(), "commander-kept-from-on-start");
+        v.class_if(both, "kept-commanders-from-both-phases");
+    }
     v.class_if(
         sent.values().any(|s| s.iter().any(|c| c.ow)) && sent.values().any(|s| s.iter().any(|c| !c.ow)),
         "mixed-overwritable",
